@@ -53,8 +53,10 @@ def ensure_gosum():
     lines.discard("")
     new = "\n".join(sorted(lines)) + "\n"
     if not os.path.exists(dst) or open(dst).read() != new:
-        with open(dst, "w") as f:
+        tmp = "%s.%d.tmp" % (dst, os.getpid())
+        with open(tmp, "w") as f:
             f.write(new)
+        os.replace(tmp, dst)
 
 
 def alt_modfile():
